@@ -111,7 +111,7 @@ Respond ==
         LET failed == s \in failset
             M2 == [M EXCEPT ![s] = a.row]
             B2 == B \cup {<<s, sh>> : sh \in a.newbad}
-            view2 == [view EXCEPT ![s] = ViewOf(IF failed THEN "fail" ELSE "ok", L[s], a.row, a.newbad)]
+            view2 == [view EXCEPT ![s] = ViewOf(V, IF failed THEN "fail" ELSE "ok", L[s], a.row, a.newbad)]
             np2 == needpriv /\ ~gotpriv
             out2 == out \ {s}
             must2 == must \ {s}
@@ -139,7 +139,7 @@ NewBad(s) == {sh \in Shnums : <<s, sh>> \in B \ B0}
 IView(s) ==
   IF s \in fail THEN "x"
   ELSE IF s \notin ans THEN "?"
-  ELSE IF NewBad(s) # {} THEN "x"
+  ELSE IF NewBad(s) # {} \/ \E sh \in Shnums : Corrupt(V, L[s][sh]) THEN "x"
   ELSE IF HoldsNothing(L[s]) THEN "0"
   ELSE IF \E sh \in Shnums : M[s][sh] # 0 THEN "1" ELSE "x"
 ICls == [i \in 1..NumServers |-> IView(Servers[i])]
